@@ -743,6 +743,7 @@ var corpus = []string{
 	`x=1;func f(){x:=2;x};[f(),x]`, `x=1;func f(){x=2};f();x`, `func f(){y=5};f();y`,
 	`func mk(){n:=0;()=>{n++;n}};g=mk();h=mk();[g(),g(),h()]`,
 	`AB=1;AB=2`, `AB=1;AB=1`, `AB=1;func f(){AB:=3;AB};f()`, `A=[1];A[0]=5;A`,
+	`func vf(..){..}; a=[1,2,3]; [func(){vf(a)}(), vf(a)]`, `func vf(x,..){[x,..]}; a=[1,2,3]; func w(){vf(0,a)}; [w(), vf(0,a)]`,
 	`func f(a,..){[a,..]};[f(1,2,3),f(1),f(1,[2,3])]`, `func f(a,..){[a,..]};f()`,
 	`f=func(n){if n<=1 {return 1}; n*self(n-1)};f(5)`,
 	`for i=5{if i==1{continue};if i==3{break};print(i)}`,
